@@ -659,8 +659,49 @@ func (w *World) sizeBound32(i int) {
 			chk(c, "after RunOptimize")
 		}
 	}
+	if len(w.Fails) == beforeMine && w.Cfg.Prop == "C14" {
+		w.sizeBoundPerChunk(i)
+	}
 	if len(w.Fails) != beforeMine {
 		w.rebuild(i)
+	}
+}
+
+// sizeBoundPerChunk: the bound is loose for a bitmap that also holds chunks at high keys, so
+// each chunk is also looked at on its own, as the bitmap And(b, [k<<16,(k+1)<<16)) shifted
+// down to key 0 with AddOffset64 - a bitmap built through the public API, for which N and x
+// are as tight as they can be. (Both calls copy the chunk as it is.)
+func (w *World) sizeBoundPerChunk(i int) {
+	o := w.B[i]
+	ks := o.M.Keys()
+	if len(ks) > 12 {
+		// sample: the first, the last and a window chosen by the step number
+		s := (w.step * 7) % (len(ks) - 10)
+		ks = append([]uint16{ks[0], ks[len(ks)-1]}, ks[s:s+10]...)
+	}
+	for _, k := range ks {
+		n := uint64(o.M.ChunkCard(k))
+		if n == 0 {
+			continue
+		}
+		var mxLow uint32
+		o.M.EachInChunk(k, func(x uint32) bool { mxLow = x & 0xFFFF; return true })
+		x := uint64(mxLow) + 1
+		var sz uint64
+		if w.try("C14", func() {
+			mask := roaring.New()
+			mask.AddRange(uint64(k)<<16, (uint64(k)+1)<<16)
+			sub := roaring.AddOffset64(roaring.And(o.BM, mask), -(int64(k) << 16))
+			sz = sub.GetSerializedSizeInBytes()
+		}) {
+			return
+		}
+		readme := 8 + 9*((x+65535)/65536) + 2*n
+		b := roaring.BoundSerializedSizeInBytes(n, x)
+		if sz > readme || sz > b {
+			w.fail("C14", "size-bound", "one chunk on its own exceeds the bound", fmt.Sprintf("slot %d (%s) after %s: chunk %#x isolated with And+AddOffset64 holds %d values below %d and serializes to %d bytes; README bound %d, BoundSerializedSizeInBytes %d", i, o.Prov, w.curOp, k, n, x, sz, readme, b))
+			return
+		}
 	}
 }
 
@@ -797,9 +838,21 @@ func (w *World) PendingLen() int { return len(w.pending) }
 // Generate draws the next step from the seed and the current state. Scenario
 // generators may queue follow-up steps (w.pending), which are delivered first.
 func (w *World) Generate(r *Rng) Step {
-	if len(w.pending) > 0 {
+	for len(w.pending) > 0 {
 		st := w.pending[0]
 		w.pending = w.pending[1:]
+		if strings.HasPrefix(st.Op, "gen:") {
+			// a deferred generator: its arguments are computed from the state the scenario has built so far
+			def := opTable[st.Op[4:]]
+			st2, ok := def.gen(w, r)
+			if !ok {
+				continue
+			}
+			if st2.Op == "" {
+				st2.Op = st.Op[4:]
+			}
+			st = st2
+		}
 		st.SS = r.U64()
 		st.SP = schedPolicies[r.Intn(len(schedPolicies))]
 		return st
